@@ -168,6 +168,10 @@ func ParseRtpHeader(b []byte) (h RtpHeader, err error) {
 
 	if h.Padding == 1 {
 		h.paddingLength = int(b[len(b)-1])
+		if h.paddingLength > len(b)-offset {
+			// the padding count says there is more padding than bytes after the header
+			return h, base.ErrRtpRtcpShortBuffer
+		}
 	}
 	return
 }
